@@ -74,6 +74,8 @@ def run(chk):
                        "bitwise/shift with a byte operand, integer*string, float division/modulo by zero may be IEEE "
                        "or a runtime error (DESIGN.md section 5)"]
     chk.floor = 20000
+    chk.rule += ("; plus many applications in one execution (batches through an identity function, repetition of fresh and of temporary "
+                 "strings) and applications continued inside one long expression by 1-70 value-preserving operators")
     items = []  # (src, exp, tag)
     for op in ALL_BINOPS:
         for a in VALUES:
@@ -198,6 +200,33 @@ def run(chk):
         else:
             prog = "let __o = []; let i = 0;\nwhile i < %d { let r = (str(i) + %s) * %d; push(__o, r); i = i + 1; }" % (k, lit(sfx), n)
         seqs.append((prog, [(str(i) + sfx) * n for i in range(k)], "repeat-temporaries"))
+    # the application is the innermost node of one long expression: its result goes through 33-70 further operators
+    # that leave a value of its kind as it is (== true, + 0, - 0.0, + "")
+    def tail_for(tag, exp):
+        op, ka, kb = tag
+        res = exp[1][0]
+        if res == "bool" and op in ("<", "<=", ">", ">=", "==", "!="):
+            return " == true"
+        if res == "i" and ka == "int" and kb == "int":
+            return " + 0"
+        if res == "f" and op in ("+", "-", "*", "/", "%"):
+            return " - 0.0"
+        if res == "s" and ka == "string" and op in ("+", "*"):
+            return ' + ""'
+        return None
+    chainable = [(src, exp, tail_for(tag, exp)) for (src, exp, tag) in items if exp[0] == "value" and len(src) < 120 and not tag[0].startswith("u")]
+    chainable = [x for x in chainable if x[2]]
+    by_tail = {}
+    for x in chainable:
+        by_tail.setdefault((x[2], x[0].split(" ")[1] if x[0].count(" ") >= 2 else "?"), []).append(x)
+    groups = sorted(by_tail)
+    for t in range(40 if quick else 800):
+        batch = []
+        for _ in range(rng.randint(12, 30)):
+            src, exp, tail = rng.choice(by_tail[rng.choice(groups)])
+            batch.append((src + tail * rng.choice([1, 5, 31, 32, 33, 34, 40, 64, 70]), exp[1]))
+        prog = "let __o = [];\n" + "\n".join("push(__o, %s);" % src for src, _ in batch)
+        seqs.append((prog, [v for _, v in batch], "batch-continued"))
     scases = [Case("s%d" % i, prog, {"globals": "__o", "steps": 400000}) for i, (prog, _, _) in enumerate(seqs)]
     sres = core.run_cases(scases)
     from .val import canon
@@ -213,8 +242,9 @@ def run(chk):
             chk.inconc("operator sequence: %s" % r.get("outcome"))
             continue
         got = list(canon_dump(r["globals"]["__o"])[1])
-        want = list(expv) if fam == "batch" else [canon(v) for v in expv]
+        want = list(expv) if fam.startswith("batch") else [canon(v) for v in expv]
         chk.observed(("sequence", fam, len(want) // 20))
+        chk.count("operator_sequences_" + fam.replace("-", "_"))
         if got != want:
             k_ = next((j for j in range(min(len(got), len(want))) if got[j] != want[j]), min(len(got), len(want)))
             chk.violation("sequence|%s" % fam, "in one execution of %d operator applications, application #%d gives %s, on its own it gives %s" % (
